@@ -4,6 +4,7 @@ package netpoll
 
 import (
 	"bytes"
+	"context"
 	"fmt"
 	"time"
 
@@ -80,6 +81,7 @@ func runC07(e *Env) {
 	ending := e.Intn(3) // 0 stay open, 1 close, 2 shutdown(write)
 	localClose := e.Chance(1, 4)
 	pauses := e.Chance(1, 2)
+	discWaits := ending != 0 && e.Chance(1, 2) // OnDisconnect waits for the reader, see below
 	data := streamBytes(stream, 0, total)
 	// Until needs delimiters: the line an Until call is to return is exactly its n bytes long (the
 	// stream bytes themselves never contain a newline), so lines of 1..5000 bytes arrive in any chunking
@@ -92,7 +94,7 @@ func runC07(e *Env) {
 			off += calls[i].n
 		}
 	}
-	e.Summary = fmt.Sprintf("mode=%d calls=%v total=%d ending=%d localClose=%v faults=%v async=%v", mode, calls, total, ending, localClose, faults, vtime.AsyncChan)
+	e.Summary = fmt.Sprintf("mode=%d calls=%v total=%d ending=%d localClose=%v faults=%v async=%v discWaits=%v", mode, calls, total, ending, localClose, faults, vtime.AsyncChan, discWaits)
 
 	peerDone := false
 	peerClosedSeq := -1
@@ -129,6 +131,18 @@ func runC07(e *Env) {
 		peerDone = true
 	})
 
+	// an OnDisconnect callback that waits for the reader (half of the runs with a closing peer): the
+	// wake-up of a blocked reader must not depend on the return of user callbacks - whoever reports the
+	// hang-up wakes the reader first. A reader left blocked is reported by the stuck oracle below.
+	readerFinished := false
+	if discWaits {
+		conn.onDisconnectCallback.Store(OnDisconnect(func(ctx context.Context, c Connection) {
+			simrt.Probe("c07-ondisconnect-waits-for-reader")
+			e.Rec("ondisconnect-waits", 0, 0, "")
+			simrt.WaitUntil("OnDisconnect waits for the reader", func() bool { return readerFinished })
+			e.Rec("ondisconnect-done", 0, 0, "")
+		}))
+	}
 	closeInvokedSeq := -1
 	if localClose {
 		simrt.GoNamed("closer", false, func() {
@@ -143,7 +157,7 @@ func runC07(e *Env) {
 
 	// the reader
 	consumed := 0
-	cur := -1       // index of the call in progress
+	cur := -1 // index of the call in progress
 	var curInvokeNs int64
 	readerDone := false
 	check := func(i int, got []byte, what string) {
@@ -314,6 +328,7 @@ func runC07(e *Env) {
 			}
 		}
 		readerDone = true
+		readerFinished = true
 	})
 
 	// ---- quiescence: every timer has fired, the peer is done
